@@ -120,6 +120,7 @@ func (e *Explorer) Explore() []Violation {
 			add("invariant", out.InvFail)
 		case out.StepCap:
 			st.StepCaps++
+			add("stepcap", out.StepCapMsg)
 		default:
 			st.Complete++
 			st.Outcomes[sig]++
